@@ -426,12 +426,16 @@ class line_info:
         """
         self.add_physical_lines([line])
 
-    def physical_update(self, physical_line_num):
+    def physical_update(self, physical_line_num, statement=False):
         """
         Mark end of new physical line.
         """
         self.current_physical_end = physical_line_num
         self.category = self.current_logical_line.category()
+        if statement and self.category == "CPP_DIRECTIVE":
+            # Text assembled from statement lines is never a directive,
+            # even if a continuation line contributes a leading '#'.
+            self.category = "SRC_NONBLANK"
         self.flushed_line = self.current_logical_line.flush()
 
     def physical_reset(self):
@@ -551,7 +555,10 @@ def fortran_file_source(fp, relaxed=False):
                 current_physical_start = curr_line.current_physical_start
 
             if src_c_line.category == "CPP_DIRECTIVE":
-                curr_line.physical_update(src_c_line.current_physical_end)
+                curr_line.physical_update(
+                    src_c_line.current_physical_end,
+                    statement=True,
+                )
                 if curr_line.category != "BLANK":
                     yield curr_line
 
@@ -577,7 +584,10 @@ def fortran_file_source(fp, relaxed=False):
 
             if cleaner.state[-1] != "CONTINUING_FROM_SOL":
                 curr_line.current_physical_start = current_physical_start
-                curr_line.physical_update(src_c_line.current_physical_end)
+                curr_line.physical_update(
+                    src_c_line.current_physical_end,
+                    statement=True,
+                )
                 if curr_line.category != "BLANK":
                     yield curr_line
 
@@ -587,7 +597,7 @@ def fortran_file_source(fp, relaxed=False):
     except StopIteration as stopit:
         _, total_physical_lines = stopit.value
 
-    curr_line.physical_update(total_physical_lines)
+    curr_line.physical_update(total_physical_lines, statement=True)
     if not curr_line.category == "BLANK":
         curr_line.current_physical_start = current_physical_start
         yield curr_line
